@@ -22,10 +22,13 @@ import (
 type codecTy = map[string]any
 
 type codecDeriver struct {
+	tagOmit  bool   // input types: keep `,omitempty` as a suffix of the field name instead of giving up
+	maxDepth int    // recursion bound for (recursive) input types; 0 = 40
 	d        *goDecls
 	opaque   bool   // some leaf is a bound type whose JSON behaviour the model does not know
 	unsupp   string // reason the type is outside the model
 	depth    int
+	truncated bool
 }
 
 func leafTy(k string) codecTy { return codecTy{"k": "leaf", "leaf": k} }
@@ -92,6 +95,19 @@ func (cd *codecDeriver) ty(text string, hidden bool) codecTy {
 	if hidden {
 		return leafTy("custom")
 	}
+	if strings.HasPrefix(text, "sup.") {
+		// the harness's own support types without methods behave as their underlying kind
+		switch supKinds[strings.TrimPrefix(text, "sup.")] {
+		case "string":
+			return leafTy("str")
+		case "int":
+			return leafTy("int")
+		case "float":
+			return leafTy("float")
+		case "bool":
+			return leafTy("bool")
+		}
+	}
 	cd.opaque = true
 	return leafTy("any")
 }
@@ -100,7 +116,15 @@ func (cd *codecDeriver) structTy(name string) codecTy {
 	cd.depth++
 	defer func() { cd.depth-- }()
 	fs := []any{}
-	if cd.depth > 40 {
+	lim := cd.maxDepth
+	if lim == 0 {
+		lim = 40
+	}
+	if cd.depth > lim {
+		if cd.tagOmit {
+			cd.truncated = true // recursive input type cut off below the depth any argument of this run reaches
+			return leafTy("any")
+		}
 		cd.unsupp = "recursive type"
 		return codecTy{"k": "struct", "fs": fs}
 	}
@@ -125,8 +149,19 @@ func (cd *codecDeriver) structTy(name string) codecTy {
 		if jn == "" {
 			cd.unsupp = "field without a json tag"
 		}
-		if f.Omit {
-			cd.unsupp = "omitempty (input type)"
+		omit := f.Omit
+		if hidden {
+			// a specially handled field is tagged "-" in the struct itself; its omitempty is on the __premarshal struct
+			if pf, ok := cd.d.premarshalFields[name][f.Name]; ok {
+				omit = pf.Omit
+			}
+		}
+		if omit {
+			if cd.tagOmit {
+				jn += ",omitempty"
+			} else {
+				cd.unsupp = "omitempty (input type)"
+			}
 		}
 		fs = append(fs, map[string]any{"json": jn, "emb": false, "t": cd.ty(f.Type, hidden)})
 	}
@@ -648,4 +683,102 @@ func sameKeyDifferentTypes(ty codecTy) bool {
 		return sub(ty)
 	}
 	return false
+}
+
+
+func jsonDepth(v any) int {
+	switch x := v.(type) {
+	case map[string]any:
+		m := 0
+		for _, y := range x {
+			if d := jsonDepth(y); d > m {
+				m = d
+			}
+		}
+		return m + 1
+	case []any:
+		m := 0
+		for _, y := range x {
+			if d := jsonDepth(y); d > m {
+				m = d
+			}
+		}
+		return m + 1
+	}
+	return 0
+}
+
+// stripTags: the type with ",omitempty" removed from the field names (for navigating the marshaled JSON)
+func stripTags(ty codecTy) codecTy {
+	out := codecTy{}
+	for k, v := range ty {
+		out[k] = v
+	}
+	switch ty["k"] {
+	case "ptr", "slice":
+		out["t"] = stripTags(ty["t"].(codecTy))
+	case "struct":
+		fs := []any{}
+		for _, x := range ty["fs"].([]any) {
+			f := x.(map[string]any)
+			fs = append(fs, map[string]any{"json": strings.Split(f["json"].(string), ",")[0], "emb": f["emb"], "t": stripTags(f["t"].(codecTy))})
+		}
+		out["fs"] = fs
+	}
+	return out
+}
+
+// codecVarsCompare: the variables object a helper call sent vs the model (driver op codec.vars): arguments decoded by
+// plain encoding/json into the parameter types, put into the __<Op>Input struct, marshaled with omitempty.
+func codecVarsCompare(c *Ctx, decls *goDecls, inputStruct string, args []string, sentVars string, cs any) {
+	maxd := 0
+	for _, a := range args {
+		var v any
+		json.Unmarshal([]byte(a), &v)
+		if d := jsonDepth(v); d > maxd {
+			maxd = d
+		}
+	}
+	cd := &codecDeriver{d: decls, tagOmit: true, maxDepth: 2*maxd + 4}
+	ty := cd.structTy(inputStruct)
+	if cd.unsupp != "" {
+		c.Res.Count("codec-vars:skipped:" + cd.unsupp)
+		return
+	}
+	fs, _ := ty["fs"].([]any)
+	if len(fs) != len(args) {
+		c.Res.Count("codec-vars:skipped:arity")
+		return
+	}
+	var targs []any
+	for _, a := range args {
+		t, dup, ok := parseTagged(a)
+		if !ok || dup {
+			c.Res.Count("codec-vars:skipped:argument-json")
+			return
+		}
+		targs = append(targs, t)
+	}
+	m := c.Model(map[string]any{"op": "codec.vars", "fs": fs, "args": targs})
+	if e, bad := m["error"]; bad {
+		c.Res.Count("codec-vars:driver-error:" + firstLine(fmt.Sprint(e)))
+		return
+	}
+	if m["ok"] != true {
+		// the model could not decode an argument the real code decoded: only bound (opaque) leaves may explain that
+		if cd.opaque || strings.Contains(fullJSON(ty), `"custom"`) {
+			c.Res.Count("codec-vars:not-judged (bound types)")
+			return
+		}
+		c.Res.Add(proto.Finding{Kind: "mismatch", Class: "codec-vars-model-decode", What: fmt.Sprintf("%s: the model cannot decode arguments %v (%v) that the implementation decoded", inputStruct, args, m["err"]), Case: cs, Model: m})
+		return
+	}
+	var ij any
+	d := json.NewDecoder(strings.NewReader(sentVars))
+	d.UseNumber()
+	d.Decode(&ij)
+	c.Res.Count("codec-vars:compared")
+	if r := cmpJSON(stripTags(ty), untag(m["enc"]), ij, "$"); r != "" {
+		c.Res.Add(proto.Finding{Kind: "mismatch", Class: "codec-vars-model-encode", What: fmt.Sprintf("%s: the variables sent differ from the model at %s (arguments %v; sent %s)", inputStruct, r, args, trunc(sentVars, 300)), Case: cs, Model: m})
+	}
 }
